@@ -284,6 +284,88 @@ def attribute_memos(ctx, rule, want_file):
     return n_memo
 
 
+def one_cache_per_method(ctx, rule, want_rel=lambda rel: True):
+    """two memoised methods of one class must not store into the same cache object: under equal keys (same arguments) the second one
+    evaluated is served the first one's result"""
+    rep = ctx.rep
+    seen = {}
+    n = 0
+    for s in find_sites(ctx):
+        if not want_rel(s.rel):
+            continue
+        n += 1
+        C = f"{s.rel}:{s.cls.qual}.{s.fn.name}"
+        k = (s.cls.qual, s.cache_attr)
+        if k in seen:
+            rep.bad(rule, C, f"self.{s.cache_attr}", f"cache object self.{s.cache_attr} is shared with {seen[k]}: both methods build the same key from the same arguments, so whichever is evaluated "
+                    f"second at a state returns the other's result (a stated derivative that is the derivative of ANOTHER quantity)", f"{s.rel}:{s.fn.lineno}")
+        else:
+            seen[k] = s.fn.name
+            rep.ok(rule, C, f"own cache object self.{s.cache_attr}")
+    return n
+
+
+def dict_memos(ctx, rule, want_file):
+    """Fourth form of memoisation: a dictionary that outlives the call (module level or instance attribute),
+        key = <k(params)>;  if key not in D: D[key] = <g(params)>;  return D[key]
+    Every parameter g reads must be readable from the key expression."""
+    rep = ctx.rep
+    n = 0
+    for rel, mod in sorted(ctx.repo.modules.items()):
+        if not want_file(rel):
+            continue
+        globs = {t.id for st in mod.tree.body if isinstance(st, ast.Assign) for t in st.targets if isinstance(t, ast.Name)}
+        for q, fn in mod.defs().items():
+            if not isinstance(fn, ast.FunctionDef):
+                continue
+            params = {a.arg for a in fn.args.args} - {"self"}
+            binds = {}
+            for w in ast.walk(fn):
+                if isinstance(w, ast.Assign) and len(w.targets) == 1 and isinstance(w.targets[0], ast.Name):
+                    binds.setdefault(w.targets[0].id, []).append(w.value)
+
+            def reads(e, seen=None):
+                seen = seen if seen is not None else set()
+                out = set()
+                for x in ast.walk(e):
+                    if isinstance(x, ast.Name):
+                        if x.id in params:
+                            out.add(x.id)
+                        elif x.id in binds and x.id not in seen:
+                            seen.add(x.id)
+                            for v in binds[x.id]:
+                                out |= reads(v, seen)
+                return out
+            for iff in [w for w in ast.walk(fn) if isinstance(w, ast.If)]:
+                t = iff.test
+                if not (isinstance(t, ast.Compare) and len(t.ops) == 1 and isinstance(t.ops[0], (ast.NotIn, ast.In))):
+                    continue
+                D = t.comparators[0]
+                dname = norm_src(D)
+                persistent = (isinstance(D, ast.Name) and D.id in globs) or (isinstance(D, ast.Attribute) and dotted(D.value) == "self")
+                if not persistent:
+                    continue
+                branch = iff.body if isinstance(t.ops[0], ast.NotIn) else iff.orelse
+                stores = [w for st in branch for w in ast.walk(st) if isinstance(w, ast.Assign) and len(w.targets) == 1 and isinstance(w.targets[0], ast.Subscript)
+                          and norm_src(w.targets[0].value) == dname]
+                if not stores:
+                    continue
+                n += 1
+                C = f"{rel}:{q}"
+                kreads = reads(t.left)
+                vreads = set()
+                for st in stores:
+                    vreads |= reads(st.value)
+                miss = sorted(vreads - kreads)
+                if miss:
+                    rep.bad(rule, C, iff, f"`{fn.name}` remembers its result in the persistent dictionary `{dname}` under the key `{norm_src(t.left)[:40]}` built from {sorted(kreads)}, but the "
+                            f"remembered value also depends on {miss}: a later call with the same key and another `{miss[0]}` is served the value computed for the first one", f"{rel}:{iff.lineno}")
+                else:
+                    rep.ok(rule, C, f"dictionary memo `{dname}`: every parameter the value reads is part of the key")
+    rep.ok(rule, "cardillo", f"{n} dictionary memo(s) found", trivial=True)
+    return n
+
+
 def r1_keys(ctx, sites, rule="C26.R1", want_cls=lambda ci: True):
     """key completeness of the memoised methods of the selected classes; returns the parameters discharged at call sites"""
     rep = ctx.rep
@@ -334,6 +416,7 @@ def run(ctx):
     rep.rule("C26.R5", "hand-written memoisation (closures that remember their last value) compares every parameter it hands to the wrapped function", 0)
     handmade_memo(ctx, "C26.R5", lambda rel: rel.startswith("cardillo/"))
     attribute_memos(ctx, "C26.R5", lambda rel: rel.startswith("cardillo/"))
+    dict_memos(ctx, "C26.R5", lambda rel: rel.startswith("cardillo/"))
     rep.rule("C26.R4", "one method per cache object; key lambda signature == method signature", 16)
     sites = find_sites(ctx)
     if len(sites) < 16:
